@@ -270,10 +270,11 @@ def build_axil_conv_proto(dwm, dws, K):
     top.submodules.me = me = AxilMaster(mbus, "m")
     top.submodules.se = se = AxilSlave(sbus, "s")
     n = me.n
-    single = Signal(name_override="asm_single_outstanding_aligned")
+    single = Signal(name_override="asm_aligned")
     sh = log2_int(dwm // 8)
-    top.comb += single.eq((~mbus.aw.valid | ((n["aw"] == n["b"]) & (mbus.aw.addr[:sh] == 0))) & (~mbus.w.valid | (n["w"] == n["b"])) &
-                          (~mbus.ar.valid | ((n["ar"] == n["r"]) & (mbus.ar.addr[:sh] == 0))))
+    # the master may present its next request while the previous response is still outstanding (pipelined master: next AW/W/AR offered no later
+    # than the cycle the previous B/R is accepted); the converter itself decides when to take it.  Addresses are bus-width aligned.
+    top.comb += single.eq((~mbus.aw.valid | (mbus.aw.addr[:sh] == 0)) & (~mbus.ar.valid | (mbus.ar.addr[:sh] == 0)))
     bst = valid_stable_monitor(top, sbus.aw, "s_aw") | valid_stable_monitor(top, sbus.w, "s_w") | valid_stable_monitor(top, sbus.ar, "s_ar") | \
         valid_stable_monitor(top, mbus.b, "m_b") | valid_stable_monitor(top, mbus.r, "m_r")
     bs = Signal(name_override="bad_valid_held")
